@@ -493,6 +493,8 @@ type Stream struct {
 	inbox        chan *lib.MessageAndMetadata // the channel where fully received messages are held for other parts of the app to read
 	mu           sync.Mutex                   // mutex to prevent race conditions when sending packets (all packets of the same message should be one right after the other)
 	closed       bool                         // flag to identify if stream is closed
+	rmu          sync.Mutex                   // receive-side mutex: guards msgAssembler / rclosed between the receive service and cleanup()
+	rclosed      bool                         // flag to identify if the receive side of the stream is closed
 	logger       lib.LoggerI
 }
 
@@ -538,6 +540,12 @@ func (s *Stream) queueSend(p *Packet, sendStart time.Time, metrics *lib.Metrics)
 // handlePacket() merge the new packet with the previously received ones until the entire message is complete (EOF signal)
 func (s *Stream) handlePacket(peerInfo *lib.PeerInfo, packet *Packet, metrics *lib.Metrics) (int32, lib.ErrorI) {
 	assemblyStart := time.Now()
+	s.rmu.Lock()
+	defer s.rmu.Unlock()
+	// the connection was stopped while this packet was in flight: drop it
+	if s.rclosed {
+		return 0, nil
+	}
 	msgAssemblerLen, packetLen := len(s.msgAssembler), len(packet.Bytes)
 	//s.logger.Debugf("Received Packet from %s (ID:%s, L:%d, E:%t), hash: %s",
 	//	lib.BytesToTruncatedString(peerInfo.Address.PublicKey),
